@@ -3,12 +3,12 @@
    Exported as
      {"lt": link type, "filter": filter id (0 = none),
       "frames": [{"cls": "Good"|"Malformed"|"Empty"|"Arb", "ts": [sec, usec], "pkt": packet-shape id}],
-      "calls":  [{"api": "next"|"loop"|"loopmax"|"iter", "k": stop after the k-th packet (0 = never)}]}
+      "calls":  [{"api": "next"|"loop"|"loopmax"|"iter", "k": stop after the k-th packet (0 = never)} | {"api": "setfilter", "k": filter id}]}
    "Arb" asks the driver for seeded arbitrary bytes; their class is whatever the top-level parser says.
    BFS (small constants; tools/families/c17.py rotates link type, filter, timestamps and packet shapes over the
    exported structures) and -simulate (full constants, longer files). *)
 EXTENDS Naturals, Sequences, FiniteSets, TLC, Json
-CONSTANTS LTs, Filters, Classes, Secs, Usecs, Pkts, MaxFrames, MaxCalls, KMax
+CONSTANTS LTs, Filters, Classes, Secs, Usecs, Pkts, MaxFrames, MaxCalls, KMax, Refilters
 VARIABLES lt, flt, frames, calls, done,
           nf, nc        \* file length and number of calls, chosen up front (so that -simulate is not biased to short files)
 vars == <<lt, flt, frames, calls, done, nf, nc>>
@@ -17,6 +17,7 @@ Calls == {[api |-> "next", k |-> 0]}
          \cup {[api |-> "loop", k |-> k] : k \in 0..KMax}
          \cup {[api |-> "loopmax", k |-> k] : k \in 1..KMax}
          \cup {[api |-> "iter", k |-> k] : k \in 0..KMax}
+         \cup {[api |-> "setfilter", k |-> f] : f \in Refilters}      \* BaseSniffer::set_filter(expression f) between two reads
 
 Init == /\ lt \in LTs /\ flt \in Filters /\ frames = <<>> /\ calls = <<>> /\ done = FALSE
         /\ nf \in 0..MaxFrames /\ nc \in 1..MaxCalls
